@@ -296,7 +296,9 @@ class _INSIntegralState(_BaseNSIntegralState):
     @property
     def evidence(self) -> float:
         """The current evidence"""
-        return np.exp(self.log_evidence)
+        # Long double, as in compute_uncertainty: the evidence of an
+        # unnormalised likelihood can be outside the range of float64
+        return np.exp(self.log_evidence, dtype=np.longdouble)
 
     @property
     def evidence_error(self) -> float:
